@@ -15,7 +15,8 @@ RULE = ("a fixed mixed-authority tree built through the node API (mutable SDMF/M
         "/private/logs/v1 with no / wrong / truncated / wrong-scheme / right token.  Checked after every request, on the servers' disks: the data region of every "
         "mutable share of every pre-existing object whose write cap is not obtainable from the write caps the request presented (URL, query, body) is unchanged; "
         "modifying requests that present no write cap are not answered 2xx; responses contain no write cap of an existing object that the presented caps do not "
-        "give, and no read cap when only a verify cap was presented; the private area answers 401 unless the token is right; non-trivial = at least one request "
+        "give; the private area answers 401 unless the token is right (any other token reaching the protected resource is a violation); before the first request the "
+        "harness asserts that its on-disk ground truth sees every mutable object of the tree; non-trivial = at least one request "
         "without write authority judged; distinct = probe fingerprint")
 TECHNIQUE = "deterministic simulation: seeded web-API request sequences against the real resource tree on a simulated grid, disk-level before/after comparison against the write authority presented"
 LEVEL_TEXT = "seeded search over request kinds, cap flavours, path shapes and operation arguments; sampling, not enumeration"
